@@ -39,6 +39,17 @@ pub fn run_case(prop: &str, case: &Value) -> Result<Vec<(String, String)>, Strin
             let (f, _, _) = props::c11::check_selection(&input, &o);
             Ok(f.into_iter().map(|(k, w)| (format!("C11/{}", k), w)).collect())
         }
+        "selection-after" => {
+            let (input, o) = subject::case_from_json(case).ok_or("malformed selection case")?;
+            let pre = match case.get("prelude").and_then(|p| p.as_str()).unwrap_or("") {
+                "ForcedBefore" => props::c11::Prelude::ForcedBefore,
+                "SameBuilderOtherLevel" => props::c11::Prelude::SameBuilderOtherLevel,
+                "SameBuilderOtherMode" => props::c11::Prelude::SameBuilderOtherMode,
+                _ => return Err("unknown prelude".into()),
+            };
+            let (f, _, _) = props::c11::check_selection_after(&input, o.ecl.unwrap_or(2), pre);
+            Ok(f.into_iter().map(|(k, w)| (format!("C11/{}-after-history", k), w)).collect())
+        }
         _ => props::replay_other(prop, kind, case),
     }
 }
